@@ -27,6 +27,21 @@ def fn_slices(tier):
                    bounds=dict(max_params=0, max_generics=2, max_where=2, max_deps_bounds=1, max_wrappers=0, max_fn_attrs=0, max_param_attrs=0, pat_depth=0),
                    fixed=[(r'fn\.attrs$', 'len=0'), (r'\.vis$', 'inherited'), (r'attr\.vis$', 'pub'), (r'\.sig\.output$', '()'),
                           (r'inputs\[0\]\.pat$', 'deps'), (r'\.sig\.async$', 'absent'), (r'\.sig\.inputs$', 'len=1'), (r'inputs\[0\]$', 'typed')]))
+    # 1b. lifetime bounds on generic type parameters (`T: 'a` with `'a` a parameter of the fn) (C03)
+    sl.append(dict(name='fn/lifetime-bounds', mode='fn', opts_only=('no_deps',),
+                   bounds=dict(max_params=0, max_generics=2, max_where=1, max_deps_bounds=1, max_wrappers=1, max_fn_attrs=0, max_param_attrs=0, pat_depth=0,
+                               lifetime_bounds=True, deps_kinds=('&', 'path:D', 'impl')),
+                   fixed=[(r'fn\.attrs$', 'len=0'), (r'\.vis$', 'inherited'), (r'attr\.vis$', 'pub'), (r'\.sig\.output$', '()'),
+                          (r'inputs\[0\]\.pat$', 'deps'), (r'\.sig\.async$', 'absent'), (r'\.sig\.inputs$', 'len=1'), (r'inputs\[0\]$', 'typed'),
+                          (r'\.sig\.const$', 'absent'), (r'\.sig\.unsafe$', 'absent'), (r'\.sig\.abi$', 'None'), (r'\.lt$', 'None')]))
+    # 1c. async fns x how the dependency is declared (several bounds = "fan-in") (C14 C12)
+    sl.append(dict(name='fn/async-deps', mode='fn', opts_only=('future_send',),
+                   bounds=dict(max_params=1, max_generics=1, max_where=1, max_deps_bounds=2, max_wrappers=1, max_fn_attrs=0, max_param_attrs=0, pat_depth=0,
+                               deps_kinds=('&', 'path:D', 'impl')),
+                   fixed=[(r'fn\.attrs$', 'len=0'), (r'\.vis$', 'inherited'), (r'attr\.vis$', 'pub'), (r'\.sig\.output$', '()'),
+                          (r'inputs\[0\]\.pat$', 'deps'), (r'inputs\[[1-9]\]\.pat$', 'ident'), (r'\.sig\.async$', 'Async'), (r'inputs\[0\]$', 'typed'),
+                          (r'inputs\[\d\]\.attrs$', 'len=0'),
+                          (r'\.sig\.const$', 'absent'), (r'\.sig\.unsafe$', 'absent'), (r'\.sig\.abi$', 'None'), (r'\.lt$', 'None')]))
     # 2. the option lattice x macro variants (C10 C11 C04 C17)
     for v in ('entrait', 'entrait_export', 'entrait_unimock', 'entrait_export_unimock'):
         sl.append(dict(name=f'fn/opts/{v}', mode='fn', variant=v, meta=True,
@@ -38,6 +53,14 @@ def fn_slices(tier):
                                deps_kinds=('&', 'path:D', 'path:C', 'impl')),
                    fixed=[(r'fn\.attrs$', 'len=0'), (r'\.vis$', 'inherited'), (r'attr\.vis$', 'pub'), (r'\.sig\.output$', '()'), (r'\.sig\.async$', 'absent'),
                           (r'inputs\[[1-9]\]\.pat$', 'ident'), (r'inputs\[0\]\.pat$', 'deps'), (r'\.lt$', 'None'), (r'\.sig\.const$', 'absent'),
+                          (r'\.sig\.unsafe$', 'absent'), (r'\.sig\.abi$', 'None'), (r'\.generics\.where$', 'None'), (r'opts\.mock_api$', 'Some'),
+                          (r'inputs\[0\]$', 'typed')]))
+    # 2c. the same with a parameter spelled like the fn (the un-mocked call must still reach the fn) (C11)
+    sl.append(dict(name='fn/unmock-fname', mode='fn', opts_only=('no_deps', 'unimock', 'mock_api'), fn_name='py',
+                   bounds=dict(max_params=2, max_generics=1, max_where=0, max_deps_bounds=1, max_wrappers=1, max_fn_attrs=0, max_param_attrs=0, pat_depth=0,
+                               deps_kinds=('&', 'path:D', 'impl'), pat_kinds=('ident', '_')),
+                   fixed=[(r'fn\.attrs$', 'len=0'), (r'\.vis$', 'inherited'), (r'attr\.vis$', 'pub'), (r'\.sig\.output$', '()'), (r'\.sig\.async$', 'absent'),
+                          (r'inputs\[0\]\.pat$', 'deps'), (r'\.lt$', 'None'), (r'\.sig\.const$', 'absent'),
                           (r'\.sig\.unsafe$', 'absent'), (r'\.sig\.abi$', 'None'), (r'\.generics\.where$', 'None'), (r'opts\.mock_api$', 'Some'),
                           (r'inputs\[0\]$', 'typed')]))
     # 3. parameter patterns (C16 C01 C18)
@@ -60,6 +83,11 @@ def fn_slices(tier):
                                pat_depth=0, pat_width=1, sym_names=True, pat_kinds=('ident', '_')),
                    fixed=SIMPLE_SIG + DEPS_IMPL1 + SYNC_UNIT + [(r'inputs\[0\]$', 'typed'), (r'inputs\[0\]\.pat$', 'ident'), (r'inputs\[\d\]\.attrs$', 'len=0'),
                                                                  (r'\.sig\.inputs$', 'len=4')]))
+    # 4c. a parameter spelled like the fn (the delegating call must still name the fn itself) (C01 C16)
+    sl.append(dict(name='fn/fname-param', mode='fn', opts_only=('no_deps',), fn_name='py',
+                   bounds=dict(max_params=2, max_generics=0, max_where=0, max_deps_bounds=1, max_wrappers=1, max_fn_attrs=0, max_param_attrs=0, pat_depth=1, pat_width=1),
+                   fixed=SIMPLE_SIG + DEPS_IMPL1 + SYNC_UNIT + [(r'inputs\[0\]$', 'typed'), (r'inputs\[0\]\.pat$', 'deps'), (r'inputs\[\d\]\.attrs$', 'len=0')]))
+    # 5. attributes below entrait, async, ?Send, return type (C18 C12 C14)
     sl.append(dict(name='fn/attrs-async', mode='fn', opts_only=('future_send', 'no_deps'),
                    bounds=dict(max_params=1, max_generics=0, max_where=0, max_deps_bounds=1, max_wrappers=1, max_fn_attrs=2 if big else 1, max_param_attrs=1, pat_depth=0),
                    fixed=[(r'\.vis$', 'inherited'), (r'attr\.vis$', 'pub'), (r'\.generics\.params$', 'len=0'), (r'\.generics\.where$', 'None'),
@@ -92,6 +120,12 @@ def mod_slices(tier):
                    bounds=dict(max_params=1, max_generics=1 if big else 0, max_where=0, max_deps_bounds=2, max_wrappers=1, max_fn_attrs=0, max_param_attrs=0, pat_depth=0,
                                deps_kinds=('path:D', 'path:C', 'impl', '&'), vis_alts=('inherited', 'pub', 'pub_crate')),
                    fixed=base_fixed + [(r'items\[\d\]\.attrs$', 'len=0'), (r'\.sig\.async$', 'absent'), (r'\.sig\.inputs$', 'len=2'), (r'inputs\[0\]$', 'typed')]))
+    # several fns whose `impl Trait` bounds share a last path segment without being the same trait (`B0`, `ma::B0`, `B0<u8>`) (C04)
+    sl.append(dict(name='mod/bound-shapes', mode='mod', opts_only=(), max_items=2,
+                   bounds=dict(max_params=0, max_generics=0, max_where=0, max_deps_bounds=2, max_wrappers=1, max_fn_attrs=0, max_param_attrs=0, pat_depth=0,
+                               deps_kinds=('&',), deps_inner_kinds=('impl',), vis_alts=('pub',), bound_shapes=True),
+                   fixed=base_fixed + [(r'items\[\d\]\.attrs$', 'len=0'), (r'\.sig\.async$', 'absent'), (r'\.sig\.inputs$', 'len=1'), (r'inputs\[0\]$', 'typed'),
+                                       (r'items\[\d\]$', 'pub fn'), (r'attr\.vis$', 'pub')]))
     # visibilities (C13 C08)
     sl.append(dict(name='mod/visibility', mode='mod', opts_only=(), max_items=1,
                    bounds=dict(max_params=0, max_generics=0, max_where=0, max_deps_bounds=1, max_wrappers=1, max_fn_attrs=0, max_param_attrs=0, pat_depth=0,
@@ -122,7 +156,7 @@ def impl_slices(tier):
                   (r'inputs\[0\]\.pat$', 'deps'), (r'inputs\[[1-9]\]\.pat$', 'ident'), (r'inputs\[\d\]\.attrs$', 'len=0'), (r'\.sig\.output$', '()'), (r'\.lt$', 'None')]
     sl.append(dict(name='impl/items', mode='impl', max_items=3 if big else 2,
                    bounds=dict(max_params=1, max_generics=1 if big else 0, max_where=0, max_deps_bounds=2 if big else 1, max_wrappers=1, max_fn_attrs=1 if big else 0, max_param_attrs=0, pat_depth=0,
-                               deps_kinds=('&',), deps_inner_kinds=('path:D', 'path:C', 'impl'), vis_alts=('inherited', 'pub')),
+                               deps_kinds=('&',), deps_inner_kinds=('path:D', 'path:C', 'impl'), vis_alts=('inherited', 'pub'), bound_shapes=True),
                    fixed=base_fixed + [(r'impl\.attrs$', 'len=0'), (r'\.sig\.inputs$', 'len=2'), (r'inputs\[0\]$', 'typed')]))
     sl.append(dict(name='impl/attrs-async', mode='impl', max_items=1,
                    bounds=dict(max_params=1, max_generics=0, max_where=0, max_deps_bounds=1, max_wrappers=1, max_fn_attrs=2 if big else 1, max_param_attrs=1 if big else 0, pat_depth=1 if big else 0,
@@ -154,6 +188,12 @@ def trait_slices(tier):
                                vis_alts=('inherited', 'pub', 'pub_crate')),
                    fixed=simple_m + [f for f in simple_t if f[0] != r'trait\.vis$'] + [(r'\.default$', 'required'), (r'inputs\[0\]$', '&self'), (r'\.fn\.inputs$', 'len=1'),
                                                                                        (r'\.fn\.output$', '()'), (r'\.fn\.async$', 'absent')]))
+    # the leaf trait of a concrete-dependency fn: `#[entrait(unimock = false, mockall = false)]` on a generated trait whose methods carry
+    # the fn's lifetime parameters and borrowed returns (C05)
+    sl.append(dict(name='trait/leaf', mode='trait', max_items=1, assoc_items=False, delegation=('none',), impl_trait=('none',), opts_only=('unimock', 'mockall'),
+                   bounds=dict(max_params=1, max_generics=2, max_where=0, max_deps_bounds=1, max_fn_attrs=0, max_param_attrs=0),
+                   fixed=simple_t + [(r'\.default$', 'required'), (r'\.pat$', 'ident'), (r'inputs\[\d\]\.attrs$', 'len=0'), (r'\.fn\.attrs$', 'len=0'),
+                                     (r'\.fn\.generics\.where$', 'None'), (r'inputs\[0\]$', '&self')]))
     # options on traits (C10 C11)
     sl.append(dict(name='trait/opts', mode='trait', max_items=1, meta=True, assoc_items=False, delegation=('none', 'ref', 'trait'),
                    bounds=dict(max_params=1, max_generics=0, max_where=0, max_deps_bounds=1, max_fn_attrs=0, max_param_attrs=0),
@@ -176,7 +216,14 @@ def front_slices(tier):
     big = tier != 'quick'
     sl = []
     for target in ('fn', 'mod', 'trait', 'impl'):
-        sl.append(dict(name=f'front/attr/{target}', mode='front', target=target, max_tokens=7 if big else 5, validate=8))
+        # flat token alphabet (22 tokens): every list up to 4 (quick) / 5 (thorough) tokens, explored to completion in parallel parts;
+        # longer lists are covered as whole option items by front/attr-items
+        sl.append(dict(name=f'front/attr/{target}', mode='front', target=target, max_tokens=5 if big else 4, validate=8))
+    # attribute lists of whole option items (3 items: two-option interactions and every order)
+    for target in ('fn', 'mod'):
+        sl.append(dict(name=f'front/attr-items/{target}', mode='front', target=target, items=3, reduced=not big, validate=8))
+    sl.append(dict(name='front/attr-items/trait', mode='front', target='trait', items=3, head=False, reduced=not big, validate=8))
+    sl.append(dict(name='front/attr-items/trait-with-target', mode='front', target='trait', items=3, head=True, reduced=not big, validate=8))
     # module / impl bodies made of legal items: one item with every dimension between fixed neighbours, two items with reduced dimensions
     sl.append(dict(name='front/item/mod-1', mode='front-item', what='mod', layout=['FN', 'a', 'STRUCT'], validate=10))
     sl.append(dict(name='front/item/mod-2', mode='front-item', what='mod', layout=['ra', 'rb', 'rc'] if big else ['ra', 'rb'], validate=10))
@@ -195,18 +242,19 @@ OTHER_FOR = {
     'C01': ['mod/items'],
     'C02': ['mod/items', 'mod/visibility', 'impl/items', 'impl/attrs-async', 'front/item/'],
     'C03': ['mod/items', 'impl/items'],
-    'C04': ['mod/items', 'impl/items', 'mod/attrs-async-opts'],
-    'C06': ['trait/delegation', 'trait/generics', 'trait/opts'],
+    'C04': ['mod/items', 'impl/items', 'mod/attrs-async-opts', 'mod/bound-shapes'],
+    'C05': ['trait/leaf'],
+    'C06': ['trait/delegation', 'trait/generics', 'trait/opts', 'trait/leaf'],
     'C07': ['impl/items', 'impl/attrs-async', 'trait/delegation', 'trait/generics'],
     'C08': ['mod/items', 'mod/visibility', 'impl/items', 'front/item/mod-1', 'front/item/mod-2', 'front/item/impl-1', 'front/item/impl-2', 'front/item/mod-tokens'],
     'C09': ['trait/definition', 'trait/generics', 'trait/delegation', 'front/item/trait'],
     'C10': ['mod/attrs-async-opts', 'trait/opts'],
     'C11': ['mod/attrs-async-opts', 'trait/opts'],
-    'C12': ['mod/attrs-async-opts', 'impl/attrs-async', 'trait/delegation'],
+    'C12': ['mod/attrs-async-opts', 'impl/attrs-async', 'trait/delegation', 'trait/leaf'],
     'C13': ['mod/visibility', 'mod/items', 'trait/delegation', 'trait/definition', 'trait/target-visibility', 'front/item/trait'],
-    'C14': ['mod/attrs-async-opts', 'impl/items', 'trait/delegation'],
-    'C17': ['front/attr/', 'trait/opts', 'mod/meta/'],
-    'C15': ['front/attr/', 'front/item/mod-1', 'mod/items', 'impl/items', 'impl/attrs-async', 'mod/attrs-async-opts', 'trait/delegation', 'trait/definition', 'trait/opts'],
+    'C14': ['mod/attrs-async-opts', 'impl/items', 'trait/delegation', 'trait/leaf'],
+    'C17': ['front/attr/', 'front/attr-items/', 'trait/opts', 'mod/meta/'],
+    'C15': ['front/attr/', 'front/attr-items/', 'front/item/mod-1', 'mod/items', 'impl/items', 'impl/attrs-async', 'mod/attrs-async-opts', 'trait/delegation', 'trait/definition', 'trait/opts'],
     'C16': ['impl/attrs-async'],
     'C18': ['mod/attrs-async-opts', 'impl/attrs-async', 'impl/items', 'trait/definition', 'trait/delegation'],
     'C19': ['mod/attrs-async-opts', 'impl/items', 'impl/attrs-async', 'trait/delegation', 'trait/opts', 'trait/generics'],
@@ -214,5 +262,62 @@ OTHER_FOR = {
 }
 
 
+# heavy slices are split along one always-decided dimension into parts that are explored in parallel: part k of n owns the
+# alternatives with index = k (mod n) of every node whose key matches; the union of the parts is the unsplit slice
+SPLIT = {
+    'quick': {
+        'fn/deps-decl': (r'^fn\.sig\.generics\.params$', 2),
+        'fn/deps-decl-2generics': (r'^fn\.sig\.generics\.params$', 2),
+        'fn/lifetime-bounds': (r'^fn\.sig\.generics\.params$', 2),
+        'mod/attrs-async-opts': (r'^attr\.opts\.(unimock|mockall)$', 2),
+        'trait/definition': (r'^trait\.(vis|unsafe)$', 2),
+        'trait/generics': (r'^trait\.generics\.params$', 2),
+        'front/item/mod-1': (r'^seg:it\.a\.(abi|term)$', 3),
+        'front/attr/trait': (r'^a\[0\]$', 3),
+        'front/attr/impl': (r'^a\[0\]$', 3),
+    },
+    'thorough': {
+        'front/attr/fn': (r'^a\[(1|2)\]$', 4),
+        'front/attr/mod': (r'^a\[(1|2)\]$', 4),
+        'front/attr/trait': (r'^a\[(0|1)\]$', 4),
+        'front/attr/impl': (r'^a\[(0|1)\]$', 4),
+        'fn/deps-decl': (r'^fn\.sig\.generics\.(params|where)$', 2),
+        'fn/deps-decl-2generics': (r'^fn\.sig\.generics\.params$', 4),
+        'mod/attrs-async-opts': (r'^attr\.opts\.(unimock|mockall|export)$', 2),
+        'mod/items': (r'^mod\.items$', 4),
+        'trait/definition': (r'^trait\.(vis|unsafe|attrs)$', 2),
+        'trait/generics': (r'^trait\.generics\.params$', 4),
+        'trait/delegation': (r'^attr\.(delegate_by|impl_trait)$', 2),
+        'impl/items': (r'^impl\.items$', 4),
+        'front/item/mod-1': (r'^seg:it\.a\.(abi|term)$', 3),
+        'front/item/fn': (r'^seg:it\.sa\.(abi|term)$', 3),
+    },
+}
+
+
 def all_slices(tier):
-    return fn_slices(tier) + mod_slices(tier) + impl_slices(tier) + trait_slices(tier) + front_slices(tier)
+    out = []
+    for sl in fn_slices(tier) + mod_slices(tier) + impl_slices(tier) + trait_slices(tier) + front_slices(tier):
+        sp = SPLIT.get('quick' if tier == 'quick' else 'thorough', {}).get(sl['name'])
+        if not sp:
+            out.append(sl)
+            continue
+        rx, n = sp
+        import re as _re
+        # a regex that names two keys (a|b) splits along both: n*n parts
+        keys = _re.findall(r'\((\w+(?:\|\w+)+)\)', rx)
+        if keys:
+            alts = keys[0].split('|')
+            base = rx.replace('(' + keys[0] + ')', '{}')
+            combos = [[]]
+            for a_ in alts:
+                combos = [c + [(base.format(a_), k, n)] for c in combos for k in range(n)]
+        else:
+            combos = [[(rx, k, n)] for k in range(n)]
+        for c in combos:
+            assert all('|' not in r_ for r_, _, _ in c), 'a split regex must name exactly one key (or use the (a|b) product form)'
+            part = dict(sl)
+            part['name'] = sl['name'] + '#' + '.'.join(str(k) for _, k, _ in c)
+            part['restrict'] = c
+            out.append(part)
+    return out
